@@ -202,7 +202,7 @@ def run(chk, prog, tier):
     from props import c10
     chk.guard('setcb table', c10.check_setcb, chk, prog, env, model, 'checker', 'C19.setcb-table')
     # the key/alg the callback selects go through the same admission as setkey
-    c02.check_order(chk, prog, env, variants=('checker',))
+    c02.check_order(chk, prog, env)
     # ... and what the policy layer then does with the selected pair is the documented policy, evaluated with what the caller really
     # leaves in the token object (jwt->key may be the key from before the callback): a selection that is ignored bends the verdict
     chk.guard('policy after callback', c02.check_config_post, chk, prog, env, rule='C19.policy-after-callback')
